@@ -381,6 +381,36 @@ def c04(run):
         prefix = prog[0][:k]
         p2 = [prefix + [bad] + prog[0][k:]]
         cases2.append((p2, [prefix], progs.render(rng, p2)))
+    # an error in one operand of a statement: nothing may run after it
+    FAIL, MARK, Q = sv('failing'), sv('marking'), sv('qq')
+    defs = [('func', FAIL, [sv('pp')], [say(st('fail')), say(v(sv('nosuchname'))), ('return', num(0), False, False)]),
+            ('func', MARK, [sv('pp')], [say(st('mark')), ('return', num(0), False, False)])]
+    two = []
+    for a, b in [(call(FAIL, num(1)), call(MARK, num(2))), (call(MARK, num(1)), call(FAIL, num(2)))]:
+        two += [say(bin_('plus', a, b)), say(bin_('and', ('bin', 'eq', a, [num(0)], 'is'), b)),
+                ('round', 'up', bin_('plus', sub(v(Q), a), sub(v(Q), b)), True),
+                ('round', 'down', ('un', 'minus', sub(v(Q), a)), True),
+                ('push', sub(v(Q), a), ('list', [b])), ('push', v(Q), ('list', [a, b])),
+                put_at(a, v(Q), b), put_at(num(1), sub(v(Q), a), b), ('assign', ('lsub', sub(v(Q), a), b), 'plus', [num(1)], 'let'),
+                ('callstmt', MARK, [bin_('plus', a, b) if False else a]), ('pop', sub(v(Q), a), ('lsub', v(Q), b)),
+                ('mut', 'cut', st('a,b'), ('lsub', v(Q), a), b), ('if', bin_('plus', a, b), [say(st('mark'))], None),
+                ('push', bin_('plus', sub(v(Q), a), sub(v(Q), b)), None), ('input', ('lsub', sub(v(Q), a), b))]
+    cases3 = []
+    for stmt in two:
+        p3 = [defs + [say(st('start')), stmt, say(st('mark'))]]
+        cases3.append(progs.render(rng, p3, plain=True))
+    reqs3 = [run_req(src, 'input line\n') for src in cases3]
+    m3, im3 = run.tie(reqs3, proj=proj_run, functional=True, desc=lambda i: {'program': cases3[i]})
+    for src, r in zip(cases3, im3):
+        if r is None:
+            continue
+        c, det, out, _ = run_parts(r)
+        run.case(src, True, outcome=c, kind='error-in-operand')
+        lines = out.decode().split('\n')
+        if c != 'rterr':
+            run.fail({'program': src, 'answer': r[:200]}, 'a failing operand did not stop the program with a runtime error')
+        elif 'fail' in lines and 'mark' in lines[lines.index('fail'):]:
+            run.fail({'program': src, 'printed': lines}, 'execution went on after an error: something ran after the failing operand')
     reqs2 = [run_req(src) for _, _, src in cases2]
     m2, im2 = run.tie(reqs2, proj=proj_run, functional=True, desc=lambda i: {'program': cases2[i][2]})
     for (p2, pre, src), r in zip(cases2, im2):
@@ -393,3 +423,289 @@ def c04(run):
             run.fail({'program': src, 'answer': r[:200]}, 'a failing statement did not stop the program with a runtime error')
         elif out.decode() != want:
             run.fail({'program': src, 'printed': out.decode(), 'expected': want}, 'output before an error is not exactly what ran before it')
+
+
+# ----------------------------------------------------------------------------- C09
+
+DEGENERATE = [
+    "X is (c)'s foo\nsay X\n", "X is . (c)'s\nsay X\n", "X is 5's\nsay X\n", 'X is "s"\'s a\nsay X\n', "X is ...\nsay X\n",
+    "X is abcdefghij\nsay X\n", "X is a. . b\nsay X\n", "rock X like (c)'re\nsay X\n", "X is , , ,\nsay X\n",
+    "F takes X\ngive back X\n\nput 1 into F\n", "F takes X\ngive back X\n\nrock F taking 1\n", "F takes X\ngive back X\n\nbuild F up\n",
+    "F takes X\ngive back X\n\nF is 5\n", "F takes X\ngive back X\n\nroll F\n", "F takes X\ngive back X\n\nlisten to F\n",
+    "F takes X\ngive back X\n\nlet F at 1 be 2\n", "F takes X\ngive back X\n\nturn up F\n", "F takes X\ngive back X\n\ncut F\n",
+    "put 1 into X\nX takes Y\ngive back Y\n\n", "F takes X, X\ngive back X\n\nsay F taking 1, 2\n", "F takes X\ngive back X\n\nF takes Y\nsay 1\n\n",
+    'X is "10"\ncast X with 1\n', 'X is "10"\ncast X with 0\n', 'X is "10"\ncast X with 37\n', 'X is "10"\ncast X with -1\n',
+    'X is "10"\ncast X with 4294967298\n', 'X is "10"\ncast X with 2.5\n', 'X is "zz"\ncast X with 36\nsay X\n',
+    'X is "-9223372036854775808"\ncast X with 10\nsay X\n', 'X is "9223372036854775808"\ncast X with 10\nsay X\n',
+    "let X at 1000000000000000000000000000000 be 1\n", "let X at 18446744073709551615 be 1\n", "let X at 18446744073709551616 be 1\n",
+    "let X at -1 be 1\nsay X\n", "let X at 0.5 be 1\nsay X\n", "put 0 over 0 into N\nlet X at N be 1\nsay X\n",
+    "put 1 over 0 into N\nlet X at N be 1\n", "put 1 over 0 into N\nrock X with 1\nsay X at N\n", "put 1 over 0 into N\nsay \"abc\" at N\n",
+    "give back 1\n\ngive back 2\n", "break\n\nbreak\n", "continue\n\nsay 1\n", "give back 1\ngive back 2\n", "break\nsay 1\n",
+    "if true\nbreak\n\nsay 1\n", "while true\ngive back 1\n\nsay 2\n", "F takes X\nbreak\n\nwhile true\nF taking 1\nsay 1\nbreak\n\n",
+    "say \"\" times 1e300\n", "say \"\" times 1 over 0\n", "say \"a\" times -1\n", "say \"a\" times 0 over 0\n",
+    "cast 1114112\n", "X is 1114112\ncast X\n", "X is 55296\ncast X\n", "X is 0.5\ncast X\n", "put 0 over 0 into X\ncast X\n", "put 1 over 0 into X\ncast X\n",
+    "X is -1\ncast X\n", "X is 65\ncast X with 2\n", "X is 65\ncast X\nsay X\n",
+    "roll X\n", "roll 5\n", "roll roll X\n", "rock X\nroll roll X\n", "rock X with 1\nturn up roll X\nsay X\n", "rock roll X\n", "turn up 5\n",
+    "turn up X plus Y\n", "turn up not X\n", "X is 5\nturn up X plus 1\nsay X\n", "rock 5\n", "rock \"s\" with 1\n", "cut 5 into X\n", "join 5 into X\n",
+    "it is 5\n", "say it\n", "build it up\n", "X is 5\nif true\nY is 1\n\nsay it\n", "roll it\n", "listen to it\n", "put 1 into it at 2\n",
+    "put 1 into X at Y\n", "X is 5\nput 1 into X at 0\n", "X is \"s\"\nput 1 into X at 0\n", "rock X\nrock Y\nput 1 into X at Y\n", "say X at 0\n",
+    "X is 5\nsay X at 0\n", "X is \"abc\"\nsay X at \"k\"\n", "X is \"abc\"\nsay X at 1\n", "X is \"abc\"\nsay X at 7\n",
+    "let X be 1, 2\n", "let X be with 1, 2\nsay X\n", "X is 1\nlet X be with 1, 2, 3\nsay X\n", "say 1 is bigger than true\n", "say not-a-number\n",
+    "say -\"x\"\n", "say - mysterious\n", "X is true\nknock X down, down\nsay X\n", "X is nothing\nbuild X up\nsay X\n", "X is \"s\"\nbuild X up\n",
+    "join X\n", "rock X\njoin X\nsay X\n", "rock X with 1\njoin X\n", "rock X with \"a\", \"b\"\njoin X with 5\n", "X is \"a,b\"\ncut X with 5\n",
+    "X is \"\"\ncut X\nsay X\n", "X is \"\"\ncut X with 5\n", "rock X\njoin X with 5\n", "F taking 1\n", "X is 1\nX taking 1\n", "F takes X\nsay 1\n\nF taking 1, 2\n",
+    "F takes X\nF taking X\n\nF taking 1\n",
+]
+
+
+def c09(run):
+    rng = run.rng
+    n = run.n(2500, 100000)
+    run.rule = ('nonsense programs: random syntax trees of all 18 statement kinds over few shared names (functions and variables '
+                'sharing names, writes through calls/literals/pops/binary expressions, every statement applied to every value kind), '
+                'a catalogue of %d degenerate programs (radices, indices and repeat counts at 0, -1, 0.5, NaN, +-inf, 2^64, 1e30; '
+                'degenerate poetic literals; control-flow keywords at top level and across blank lines), and mutations of those; '
+                'the model decides which stay within the step/size budget; non-trivial = the program is accepted by the parser; '
+                'distinct by program text' % len(DEGENERATE))
+    cases = [(s, 'catalogue') for s in DEGENERATE]
+    names = [('simple', 'X'), ('simple', 'F'), ('common', 'the', 'cat'), ('proper', ['Doctor', 'Feelgood'])]
+    while len(cases) < n:
+        r = rng.random()
+        if r < 0.7:
+            g = rock.Gen(rng, names=names[:rng.randint(1, 4)], funcs=names[:rng.randint(1, 3)], max_depth=rng.randint(1, 3))
+            prog = g.program(depth=rng.randint(0, 2))
+            # seed some values so that programs get past their first statement more often
+            pre = []
+            for nm in g.names:
+                if rng.random() < 0.7:
+                    pre += progs.setup_value(rng.choice(progs.universe()), nm if nm[0] == 'simple' else ('simple', 'tmp'))[:6]
+                    if nm[0] != 'simple' and pre:
+                        pre.append(put(v(('simple', 'tmp')), nm))
+            prog = [pre + prog[0]] + prog[1:]
+            cases.append((rock.Speller(rng, noise=0.02, comments=0.02).program(prog), 'random-tree'))
+        elif r < 0.85:
+            a, b = rng.choice(DEGENERATE), rng.choice(DEGENERATE)
+            cases.append((a + b, 'catalogue-pair'))
+        else:
+            from . import texts
+            cases.append((texts.mutate(rng, rng.choice(DEGENERATE)), 'catalogue-mutated'))
+    stdin = 'line one\nline two\n\nlast'
+    reqs = [run_req(s, stdin, steps=3000) for s, _ in cases]
+    m, im = run.tie(reqs, proj=lambda r: run_parts(r)[0] if run_parts(r)[0] in ('ok', 'rterr', 'parseerr') else 'crash',
+                    functional=False, desc=lambda i: {'program': cases[i][0], 'kind': cases[i][1]})
+    profiles = [('debug', im)]
+    if run.tier == 'thorough':
+        idx = [i for i, r in enumerate(im) if r is not None]
+        rel = common.impl([reqs[i] for i in idx], 'release')
+        full = [None] * len(reqs)
+        for i, r in zip(idx, rel):
+            full[i] = r
+        profiles.append(('release', full))
+    for prof, resps in profiles:
+        for (src, kind), r in zip(cases, resps):
+            if r is None or r == 'skipped':
+                continue
+            c, d, out, _ = run_parts(r)
+            if prof == 'debug':
+                run.case(src, c in ('ok', 'rterr'), sample={'program': src[:200], 'answer': r[:100]} if rng.random() < 0.004 else None,
+                         kind=kind, outcome=c)
+                if c == 'rterr':
+                    run.count('error=' + d)
+            if c not in ('ok', 'rterr', 'parseerr'):
+                run.fail({'program': src, 'profile': prof, 'answer': r[:200]}, 'running a program %s (%s build)' % (
+                    'does not terminate' if c == 'hang' else 'crashes the interpreter', prof))
+            elif c == 'rterr':
+                f = r.split(' ')
+                if f[2] == 'crash' or len(f[2]) <= 1:
+                    run.fail({'program': src, 'answer': r[:200]}, 'runtime error message cannot be rendered')
+
+
+# ----------------------------------------------------------------------------- C08
+
+def io_program(rng):
+    """programs interleaving say/listen with other statements"""
+    X, Y, Q = sv('xx'), sv('yy'), sv('qq')
+    G = sv('gg')
+    stmts = [put(num(0), X),
+             ('func', G, [sv('pp')], [say(v(sv('pp'))), ('input', ('lid', sv('zz'))), say(v(sv('zz'))), ('return', num(0), False, False)])]
+    k = rng.randint(2, 8)
+    for i in range(k):
+        r = rng.random()
+        if r < 0.08:
+            # two I/O-performing calls inside one statement (also as subscripts of a target that is not writable)
+            a, b = call(G, num(1)), call(G, num(2))
+            stmts.append(rng.choice([
+                say(bin_('plus', a, b)),
+                ('round', 'up', bin_('plus', sub(v(Q), a), sub(v(Q), b)), True),
+                ('push', sub(v(Q), a), ('list', [b])),
+                put_at(a, v(Q), b),
+                ('callstmt', G, [bin_('plus', a, b) if False else a]),
+            ]))
+        elif r < 0.3:
+            stmts.append(say(rng.choice([num(rng.randint(0, 99)), st(rng.choice(['', 'hé', 'abc def', 'Ω'])), v(X), v(Y) if i > 0 else v(X), TRUE, NULL])))
+        elif r < 0.5:
+            stmts.append(('input', ('lid', Y)))
+            stmts.append(say(v(Y)))
+        elif r < 0.58:
+            stmts.append(('input', None))
+        elif r < 0.66:
+            stmts.append(('input', ('lsub', v(Q), num(rng.randint(0, 2)))))
+        elif r < 0.75:
+            stmts.append(('inc', X, 1))
+        elif r < 0.85:
+            c = sv('cc')
+            stmts += [put(num(0), c), ('while', ('bin', 'less', v(c), [num(rng.randint(1, 3))], 'is'),
+                                      [('inc', c, 1), rng.choice([say(v(c)), ('input', ('lid', Y))]), say(st('in loop'))])]
+        elif r < 0.92:
+            f = sv('ff')
+            stmts += [('func', f, [sv('pp')], [say(v(sv('pp'))), ('input', ('lid', sv('zz'))), ('return', v(sv('zz')), False, False)]),
+                      say(call(f, num(i)))]
+        else:
+            stmts.append(('if', v(Y) if any(s[0] == 'input' for s in stmts) else TRUE, [say(st('then'))], [say(st('else'))]))
+    return [stmts]
+
+
+def c08(run):
+    rng = run.rng
+    n = run.n(150, 4000)
+    run.rule = ('programs interleaving say/listen (with and without destination, into subscripts, inside loops and functions) with other '
+                'statements x inputs (empty, no final newline, blank lines, CRLF, non-ASCII) x a writer fault at EVERY byte position up to '
+                'the output length and a reader fault at every line request; non-trivial = the fault-free run prints >= 2 lines and reads >= 1; '
+                'distinct by (program, input, fault)')
+    inputs = ['', 'one\ntwo\nthree\n', 'no newline at end', '\n\nblank lines\n\n', 'crlf\r\nline\r\n', 'héllo Ω\n日本\n', 'a\n' * 12]
+    total_faults = 0
+    for i in range(n):
+        prog = io_program(rng)
+        src = progs.render(rng, prog)
+        stdin = rng.choice(inputs)
+        base = common.impl([run_req(src, stdin)])[0]
+        mbase = common.model([run_req(src, stdin)])[0]
+        if proj_run(base) != proj_run(mbase):
+            run.disagree({'program': src, 'stdin': stdin}, mbase, base, True)
+        c, d, out, reads = run_parts(base)
+        if c in ('crash', 'hang'):
+            run.fail({'program': src, 'stdin': stdin, 'answer': base[:200]}, 'I/O program crashes')
+            continue
+        L = len(out)
+        nlines = stdin.count('\n') + (1 if stdin and not stdin.endswith('\n') else 0)
+        reqs = [run_req(src, stdin, w=str(k)) for k in range(L + 2)] + [run_req(src, stdin, r=str(j)) for j in range(nlines + 1)]
+        kinds = [('w', k) for k in range(L + 2)] + [('r', j) for j in range(nlines + 1)]
+        m, im = run.tie(reqs, proj=proj_run, functional=True, desc=lambda q: {'program': src, 'stdin': stdin, 'fault': kinds[q]})
+        total_faults += len(reqs)
+        for (kind, k), r in zip(kinds, im):
+            if r is None:
+                continue
+            c2, d2, out2, reads2 = run_parts(r)
+            run.case((src, stdin, kind, k), out.count(b'\n') >= 2 and reads >= 1,
+                     sample={'program': src[:300], 'stdin': stdin, 'fault': [kind, k], 'answer': r[:120]} if rng.random() < 0.0005 else None,
+                     fault=kind, outcome=c2)
+            case = {'program': src, 'stdin': stdin, 'fault': [kind, k], 'fault_free': base[:300], 'answer': r[:300]}
+            if c2 in ('crash', 'hang'):
+                run.fail(case, 'an I/O fault makes the interpreter panic or hang')
+                continue
+            if kind == 'w':
+                if k >= L:
+                    if (c2, d2, out2, reads2) != (c, d, out, reads):
+                        run.fail(case, 'a writer that never runs out of budget changes the run')
+                else:
+                    if out2 != out[:k]:
+                        run.fail(case, 'bytes written before a write fault are not exactly the first k bytes of the fault-free output')
+                    if c2 != 'rterr' or d2 != 'IOError':
+                        run.fail(case, 'a write fault does not stop the program with an I/O error (got %s %s)' % (c2, d2))
+                    if reads2 > reads:
+                        run.fail(case, 'input was read after the write fault')
+            else:
+                if k < reads:
+                    # the fault-free run asked for line k: the faulty run must stop there
+                    if c2 != 'rterr' or d2 != 'IOError':
+                        run.fail(case, 'a read fault does not stop the program with an I/O error (got %s %s)' % (c2, d2))
+                    if not out.startswith(out2):
+                        run.fail(case, 'output of a run with a read fault is not a prefix of the fault-free output')
+                    if reads2 != k:
+                        run.fail(case, 'lines were handed out after the read fault')
+                else:
+                    if (c2, d2, out2, reads2) != (c, d, out, reads):
+                        run.fail(case, 'a reader fault that is never reached changes the run')
+    run.extra['fault_positions'] = total_faults
+    # say prints the canonical text, listen stores exactly the line
+    echo = []
+    for s in ['plain', '', ' spaces  ', 'tab\there', 'Ωé', 'cr\r', '"quoted"', '0', 'null']:
+        echo.append(s)
+    src = 'listen to X\nsay X\n' * len(echo)
+    stdin = '\n'.join(echo) + '\n'
+    r = common.impl([run_req(src, stdin)])[0]
+    c, d, out, reads = run_parts(r)
+    run.case(('echo',), True, kind='echo')
+    if out.decode('utf-8', 'replace') != stdin or reads != len(echo):
+        run.fail({'program': src, 'stdin': stdin, 'answer': r}, 'listen/say do not reproduce the input lines one by one')
+
+
+# ----------------------------------------------------------------------------- C10
+
+def dict_program(rng):
+    A = sv('dd')
+    keys = rng.sample(['a', 'b', 'c', 'd', 'e', 'ff', 'zz', 'k1' if False else 'kk', '', 'Ω', 'true', 'null'], rng.randint(2, 8))
+    stmts = []
+    for k in keys:
+        kind = rng.random()
+        key = st(k)
+        if kind < 0.1:
+            key = rng.choice([TRUE, FALSE, NULL, MYST])
+        val = rng.choice([st(k.upper() or 'E'), st('v' + k), num(rng.randint(0, 9)), TRUE]) if rng.random() < 0.3 else st('v' + k)
+        stmts.append(put_at(val, v(A), key))
+    if rng.random() < 0.5:
+        stmts.append(('push', v(A), ('list', [st('s0'), st('s1')])))
+    r = rng.random()
+    tail = []
+    B = sv('ee')
+    if r < 0.35:
+        tail = [('mut', 'join', v(A), ('lid', B), st(',') if rng.random() < 0.5 else None), say(v(B))]
+    elif r < 0.5:
+        tail = [say(neg(v(A)))] if False else [say(bin_('less', v(A), TRUE))]            # error message embeds the value
+    elif r < 0.62:
+        tail = [('mut', 'cast', v(A), None, None)]                                      # cannot cast value [...]
+    elif r < 0.72:
+        tail = [put(v(A), B), say(('bin', 'eq', v(A), [v(B)], 'is')), put_at(st('x'), v(B), st('new')), say(('bin', 'eq', v(A), [v(B)], 'is'))]
+    elif r < 0.82:
+        tail = [('push', v(sv('outer')), ('list', [v(A)])), ('mut', 'cut', v(sv('outer')), None, None)]
+    elif r < 0.9:
+        tail = [say(sub(v(A), st(keys[0]))), say(v(A)), ('mut', 'join', v(A), None, v(A))]   # invalid join delimiter [array]
+    else:
+        tail = [('pop', v(A), ('lid', B)), say(v(B)), ('inc', A, 1)]
+    return [stmts + tail]
+
+
+def c10(run):
+    rng = run.rng
+    n = run.n(250, 10000)
+    reps = 6
+    run.rule = ('programs building dictionaries with 2-8 non-numeric keys (strings, booleans, null, mysterious; nested) and then joining, '
+                'printing, comparing, copying, or provoking every error whose message embeds a value; each run %d times in one process '
+                '(every HashMap gets a fresh hasher seed) and in 3 separate processes, plus `lint` twice; byte-compare stdout, result and message; '
+                'non-trivial = the dictionary has >= 3 keys; distinct by program text' % reps)
+    cases = []
+    for i in range(n):
+        prog = dict_program(rng)
+        cases.append((prog, progs.render(rng, prog)))
+    reqs = [run_req(src) for _, src in cases]
+    m, im = run.tie(reqs, proj=lambda r: r, functional=True, desc=lambda i: {'program': cases[i][1]})
+    # repeated runs: same process (requests repeated back to back) and separate processes
+    rep_reqs = []
+    for r in reqs:
+        rep_reqs += [r] * reps
+    same = common.serve([common.harness_bin(), 'serve'], rep_reqs, tag='c10same')
+    procs = [common.serve([common.harness_bin(), 'serve'], reqs, tag='c10p%d' % k) for k in range(3)]
+    lint_reqs = ['lint ' + hx(src) for _, src in cases]
+    l1 = common.serve([common.harness_bin(), 'serve'], lint_reqs, tag='c10l1')
+    l2 = common.serve([common.harness_bin(), 'serve'], lint_reqs, tag='c10l2')
+    for i, (prog, src) in enumerate(cases):
+        answers = set(same[i * reps:(i + 1) * reps]) | {p[i] for p in procs} | ({im[i]} if im[i] is not None else set())
+        nkeys = rock.dump_program(prog).count('(lsub ')
+        c = run_parts(im[i])[0] if im[i] else '?'
+        run.case(src, nkeys >= 3, sample={'program': src[:300], 'answer': (im[i] or '')[:160]} if rng.random() < 0.01 else None,
+                 keys=nkeys, outcome=c)
+        if len(answers) != 1:
+            run.fail({'program': src, 'answers': sorted(answers)[:4]}, 'the same program and input gave %d different results over %d runs' % (len(answers), reps + 4))
+        if l1[i] != l2[i]:
+            run.fail({'program': src, 'lint': [l1[i], l2[i]]}, 'linting the same program twice gave different reports')
+    run.extra['runs_per_program'] = reps + 4
